@@ -51,6 +51,30 @@ func init() {
 			fr.i.side[fmt.Sprintf("wsclosed:%p", a[0].(*value))] = true
 			return nilError
 		},
+		// ReadMessage asks the reader hook the harness registered for the
+		// socket: state 0 = a frame, 1 = nothing to read yet (blocks),
+		// 2 = the peer closed the socket
+		"(*" + wsPkg + ".Conn).ReadMessage": func(fr *frame, a []value) value {
+			fn, ok := fr.i.side[fmt.Sprintf("wsreader:%p", a[0].(*value))]
+			if !ok {
+				panic(blockedPanic{"websocket read without a reader hook"})
+			}
+			res := call(fr.i, fr, token.NoPos, fn.(value), nil).(tuple)
+			switch asInt64(res[1]) {
+			case 0:
+				return tuple{1, res[0], nilError}
+			case 1:
+				panic(blockedPanic{"websocket read: nothing to read"})
+			}
+			pkg := fr.i.prog.ImportedPackage("errors")
+			return tuple{-1, []value(nil), call(fr.i, fr, token.NoPos, pkg.Func("New"), []value{"websocket: close 1006 (abnormal closure)"})}
+		},
+		zz + "WSReader": func(fr *frame, a []value) value {
+			itf := a[0].(iface)
+			p, _ := itf.v.(*value)
+			fr.i.side[fmt.Sprintf("wsreader:%p", p)] = a[1]
+			return nil
+		},
 		zz + "WSFrames": func(fr *frame, a []value) value {
 			itf := a[0].(iface)
 			p, _ := itf.v.(*value)
